@@ -317,3 +317,32 @@ package dotgit
 //gvc:  sink Equal requires both: calls("ModTime") == 2 * calls("Equal") + 2
 //gvc:  ensures relooked: pr != nil ==> calls("Equal") >= 1 && calls("ModTime") >= 2
 //gvc:end
+
+// PackWriter.save (C18: an object is visible once its write has returned). A
+// nil result means the pack is at its permanent name: save either renames the
+// temporary file onto pack-<sum>.pack or, having looked at THAT path in this
+// very call and found a regular file there, drops the temporary file as a
+// duplicate -- what it found out about the .idx or .rev file says nothing
+// about the pack (an earlier attempt may have died between the two).
+// fileExists: one Lstat of the path; true exactly for a regular file.
+//gvc:func fileExists
+//gvc:  props C18
+//gvc:  theory int
+//gvc:  opt coarse
+//gvc:  opt frame args
+//gvc:  results exists err
+//gvc:  modifies fs.#clock, fs.#lstatAt, fs.#symAt, fs.#regAt
+//gvc:  ensures probe: fs.#clock == old(fs.#clock) + 1 && fs.#lstatAt == store(old(fs.#lstatAt), strid(path), fs.#clock)
+//gvc:  ensures seen: exists == (err == nil && fs.#regAt[strid(path)])
+//gvc:end
+
+//gvc:func (*PackWriter).save
+//gvc:  props C18
+//gvc:  theory int
+//gvc:  opt coarse
+//gvc:  opt frame args
+//gvc:  requires nn: w != nil && w.fs != nil && w.fw != nil
+//gvc:  sink clean requires dup: w.fs.#lstatAt[strid(packPath)] == w.fs.#clock && w.fs.#regAt[strid(packPath)]
+//gvc:  sink Rename requires place: same_string(arg1, packPath)
+//gvc:  ensures placed: result == nil ==> calls("Rename") + calls("clean") >= 1
+//gvc:end
